@@ -226,4 +226,11 @@ def rb_binding_agreement(ctx: Ctx) -> None:
     binding_agreement(ctx)
 
 
-RULES = [r1_field_packing, r2_directive_chain, r3_order_and_multiplicity, r4_text_and_binary, r5_layout_agreement, rb_binding_agreement]
+def rm_no_process_lifetime_results(ctx: Ctx) -> None:
+    """memoising decorators, module-level stores and mutable defaults on this property's mechanism (shared rule, caches.py)"""
+    from ..caches import state_rule
+
+    state_rule(ctx)
+
+
+RULES = [r1_field_packing, r2_directive_chain, r3_order_and_multiplicity, r4_text_and_binary, r5_layout_agreement, rb_binding_agreement, rm_no_process_lifetime_results]
